@@ -278,6 +278,53 @@ func evalC02(c *Ctx, cs *Case) {
 		}
 		modes = kept
 	}
+	// two root blocks indented with DIFFERENT characters (one space per level / one TAB per level),
+	// and in the second block one line indented with the first block's character: whatever one
+	// thinks of mixing styles across blocks, this document must be rejected
+	if len(f) >= 2 && f[0].Depth() >= 2 && f[len(f)-1].Depth() >= 2 {
+		var sb strings.Builder
+		for _, l := range gen.SpellLines(f[:len(f)-1], gen.Spelling{Unit: " ", Bullet: 0, FinalNL: true}) {
+			sb.WriteString(l.Text + "\n")
+		}
+		last := gen.SpellLines(model.Forest{f[len(f)-1]}, gen.Spelling{Unit: "\t", Bullet: 0, FinalNL: true})
+		// the altered line is a depth-2 line AFTER the block's first indented line (which is the
+		// one that establishes the block's TAB indentation)
+		done, seenIndented := false, false
+		for _, l := range last {
+			t := l.Text
+			if !done && seenIndented && l.Depth == 2 {
+				t = " " + strings.TrimLeft(t, "\t") // a space where this block uses a TAB
+				done = true
+			}
+			if l.Depth >= 2 {
+				seenIndented = true
+			}
+			sb.WriteString(t + "\n")
+		}
+		mdoc := sb.String()
+		for _, m := range modes {
+			if !done {
+				break
+			}
+			if m.name == "toml" {
+				continue
+			}
+			cs.Entry = modeLabel(m)
+			cs.Tags = []string{"M7.other-blocks-indent-char", map[bool]string{true: "massive", false: "simple"}[m.massive]}
+			if m.massive {
+				cs.SetDoc(mdoc)
+				c.Rejournal(cs)
+			}
+			_, _, o := m.run(mdoc, context.Background())
+			c.Eval(gen.HashString(fkey+"\x00m7"+cs.Entry), true)
+			c.Count("injected.M7", 1)
+			if o.Panic != nil {
+				c.Violation(cs, "panic", PanicSig(o.Panic, o.Stack), map[string]any{"doc": mdoc})
+			} else if o.Err == nil {
+				c.Violation(cs, "malformed.accepted", "M7.other-blocks-indent-char", map[string]any{"doc": mdoc})
+			}
+		}
+	}
 	// a heading-root spelling of the same forest is rendered first (well-formed: must be accepted
 	// and complete); it also leaves "# root" parser state behind for the bullet-root documents
 	// that follow, which must not be affected by it
